@@ -1,13 +1,29 @@
 /-
   Model of finisher_api.go `DB.FindInBatches` over an abstract table.
 
-  A table (after the chain's WHERE filter) is the list of its primary keys in
-  key order.  `findQ` is what one `Find` with the given LIMIT / OFFSET / cursor
-  (`pk > gt`) returns under `ORDER BY pk`.  `batchLoop` mirrors the Go loop
-  statement by statement; see the comments for the line correspondence.
+  A table is the list of its primary keys in key order.  The loop is transcribed ONCE, generically in the
+  query function `q limit offset cursor` (what one `queryDB.Limit(batchSize).Find(dest)` returns, as keys in
+  delivery order); two query functions instantiate it:
+
+  * `findQ rows`   — the chain has no WHERE and no user ordering: `… WHERE pk > gt ORDER BY pk LIMIT l OFFSET o`;
+  * `queryW tbl units ord` — the chain's WHERE is a list of units joined the way clause/where.go
+    `Where.Build`/`buildExprs` join them (a unit produced by `db.Or(..)` is preceded by ` OR `, every other one by
+    ` AND `, SQL precedence makes that an OR of AND-runs), the cursor `clause.Gt{pk,last}` is APPENDED to that list
+    by `tx.Clauses(..)` (so it is AND-ed to the LAST run only), and the rows are ordered by the user's `Order`
+    columns first and the primary key last (`db.Order(pk)` in FindInBatches comes after the user's calls).
+
+  `batchStep` is one iteration of the Go `for { … }` (line correspondence in the comments), `batchLoopQ` iterates it
+  and records the SEQUENCE OF QUERIES (limit / offset / cursor) exactly as the recording driver sees them.
 -/
 import GormModel.Model.Limit
 namespace Gorm
+
+/-- LIMIT / OFFSET window of a result list (absent = no bound; values are non-negative when printed) -/
+def window (r : List Nat) (lim : Option Int) (off : Option Int) : List Nat :=
+  let r := match off with | some o => r.drop o.toNat | none => r
+  match lim with
+  | some l => r.take l.toNat
+  | none => r
 
 /-- rows returned by `... WHERE pk > gt ORDER BY pk LIMIT lim OFFSET off` -/
 def findQ (rows : List Nat) (lim : Option Int) (off : Option Int) (gt : Option Nat) : List Nat :=
@@ -16,6 +32,98 @@ def findQ (rows : List Nat) (lim : Option Int) (off : Option Int) (gt : Option N
   match lim with
   | some l => r.take l.toNat
   | none => r
+
+/-! ### WHERE as "OR of AND-runs" (clause/where.go) -/
+
+/-- one top-level member of `clause.Where.Exprs`: `isOr` = it is a single-member `clause.OrConditions`
+    (what `db.Or(cond)` adds); `sat k` = the member's own (parenthesised) condition holds for the row with key `k`. -/
+structure WUnit where
+  isOr : Bool
+  sat  : Nat → Bool
+
+/-- first member that is not a single `Or`, with what precedes / follows it -/
+def splitFirstNonOr : List WUnit → Option (List WUnit × WUnit × List WUnit)
+  | [] => none
+  | u :: us =>
+    if u.isOr then
+      match splitFirstNonOr us with
+      | some (pre, v, post) => some (u :: pre, v, post)
+      | none => none
+    else some ([], u, us)
+
+/-- `Where.Build`: "Switch position if the first query expression is a single Or condition":
+    the first non-Or member is swapped with member 0. -/
+def whereSwap : List WUnit → List WUnit
+  | [] => []
+  | u :: us =>
+    if u.isOr then
+      match splitFirstNonOr us with
+      | some (pre, v, post) => v :: (pre ++ u :: post)
+      | none => u :: us
+    else u :: us
+
+/-- value of `cur <AND|OR> u₁ <AND|OR> u₂ …` under SQL precedence, `cur` = value of the AND-run being read -/
+def evalUnitsAux (k : Nat) : Bool → List WUnit → Bool
+  | cur, [] => cur
+  | cur, u :: us => if u.isOr then cur || evalUnitsAux k (u.sat k) us else evalUnitsAux k (cur && u.sat k) us
+
+/-- `buildExprs(exprs, " AND ")` read by the database: member 0 opens the first run (its own connector is
+    not printed); no WHERE at all = every row. -/
+def evalUnits (us : List WUnit) (k : Nat) : Bool :=
+  match us with
+  | [] => true
+  | u :: us => evalUnitsAux k (u.sat k) us
+
+/-- the member `tx.Clauses(clause.Gt{pk, last})` appends -/
+def cursorUnit (g : Nat) : WUnit := { isOr := false, sat := fun k => g < k }
+
+/-- what the database evaluates for the chain's WHERE plus the optional key cursor -/
+def whereSat (us : List WUnit) (gt : Option Nat) (k : Nat) : Bool :=
+  evalUnits (whereSwap (match gt with | none => us | some g => us ++ [cursorUnit g])) k
+
+/-! ### ORDER BY (clause/order_by.go: columns in call order, later calls appended) -/
+
+/-- one ORDER BY column: the row's sort key for that column (NULLs are the harness' business: smallest) -/
+structure OrdCol where
+  key  : Nat → Int
+  desc : Bool
+  /-- column identity (0 = primary key); only printed by the driver for the query-shape correspondence -/
+  tag  : Nat := 0
+
+/-- the primary-key column, ascending / descending -/
+def pkAsc : OrdCol := { key := fun k => (k : Int), desc := false }
+def pkDesc : OrdCol := { key := fun k => (k : Int), desc := true }
+
+/-- lexicographic "a comes no later than b" -/
+def ordLe : List OrdCol → Nat → Nat → Bool
+  | [], _, _ => true
+  | c :: cs, a, b =>
+    if c.key a = c.key b then ordLe cs a b
+    else if c.desc then decide (c.key b < c.key a) else decide (c.key a < c.key b)
+
+def insertBy (le : Nat → Nat → Bool) (x : Nat) : List Nat → List Nat
+  | [] => [x]
+  | y :: l => if le x y then x :: y :: l else y :: insertBy le x l
+
+/-- stable insertion sort (stability on the incoming order = the database's natural key order; with `[]` as
+    ordering the list is returned unchanged: "no ORDER BY = rowid order" is the SQLite assumption) -/
+def isort (le : Nat → Nat → Bool) : List Nat → List Nat
+  | [] => []
+  | x :: l => insertBy le x (isort le l)
+
+/-- `SELECT … WHERE <units [AND-appended cursor]> ORDER BY <ord> LIMIT lim OFFSET off` over table `tbl` -/
+def queryW (tbl : List Nat) (us : List WUnit) (ord : List OrdCol)
+    (lim : Option Int) (off : Option Int) (gt : Option Nat) : List Nat :=
+  window (isort (ordLe ord) (tbl.filter (whereSat us gt))) lim off
+
+/-! ### the loop -/
+
+/-- one query of the loop as the recording driver sees it -/
+structure BatchQuery where
+  limit  : Int
+  offset : Option Int
+  cursor : Option Nat
+deriving Repr, DecidableEq
 
 /-- loop state of FindInBatches -/
 structure BatchSt where
@@ -26,59 +134,107 @@ structure BatchSt where
   first        : Bool := true
 deriving Repr
 
-/-- result of the whole call: the batches handed to `fc`, in order,
-    and whether the loop ran out of fuel (never, see `C15_batches_fuel`). -/
+/-- result of the whole call: the batches handed to `fc`, in order, the queries issued, `tx.RowsAffected`,
+    and whether the loop ran out of fuel (never under the hypotheses of `C15_batches_terminates`). -/
 structure BatchOut where
   batches : List (List Nat) := []
+  queries : List BatchQuery := []
+  rowsAffected : Int := 0
   outOfFuel : Bool := false
   pkRequired : Bool := false
 deriving Repr
 
-/-- the `for { ... }` loop.  `userOff` is the user's effective OFFSET (only on the first
-    query: later ones run on `tx.Offset(-1)`), `totalSize` is `*limit.Limit` or 0. -/
-def batchLoop (rows : List Nat) (userOff : Option Int) (totalSize : Int) :
-    Nat → BatchSt → List (List Nat) → BatchOut
-  | 0, _, acc => { batches := acc.reverse, outOfFuel := true }
-  | fuel+1, st, acc =>
-    -- result := queryDB.Limit(batchSize).Find(dest)
-    let res := findQ rows (some st.batchSize) (if st.first then userOff else none) st.cursor
-    let n : Int := res.length
-    -- rowsAffected += result.RowsAffected; batch++
-    let rowsAffected := st.rowsAffected + n
-    let batch := st.batch + 1
-    -- if result.Error == nil && result.RowsAffected != 0 { fc(...) }
-    let acc := if n ≠ 0 then res :: acc else acc
-    -- if tx.Error != nil || int(result.RowsAffected) < batchSize { break }
-    if n < st.batchSize then { batches := acc.reverse }
-    else
-      -- if totalSize > 0 { if totalSize <= rowsAffected { break }; if totalSize/batchSize == batch { batchSize = totalSize % batchSize } }
-      if totalSize > 0 ∧ totalSize ≤ rowsAffected then { batches := acc.reverse }
-      else
-        let batchSize :=
-          if totalSize > 0 ∧ totalSize / st.batchSize = batch then totalSize % st.batchSize
-          else st.batchSize
-        -- primaryValue, zero := ...ValueOf(last element); if zero { ErrPrimaryKeyRequired; break }
-        match res.getLast? with
-        | none => { batches := acc.reverse, pkRequired := true }
-        | some last =>
-          if last = 0 then { batches := acc.reverse, pkRequired := true }
-          else
-            -- queryDB = tx.Clauses(clause.Gt{pk, primaryValue})
-            batchLoop rows userOff totalSize fuel
-              { batchSize := batchSize, batch := batch, rowsAffected := rowsAffected,
-                cursor := some last, first := false } acc
+/-- outcome of one iteration: the rows of this query, the query, the running total, and the next state
+    (`none` = one of the `break`s) -/
+structure StepOut where
+  res : List Nat
+  query : BatchQuery
+  rowsAffected : Int
+  next : Option BatchSt
+  pkRequired : Bool := false
 
-/-- `FindInBatches(dest, batchSize, fc)` on a chain whose LIMIT clause state is `st`.
-    Mirrors the preamble: totalSize, the `batchSize > totalSize` clamp. -/
+/-- one iteration of the `for { ... }` loop.  `userOff` is the user's effective OFFSET (only on the first
+    query: later ones run on `tx.Offset(-1)`), `totalSize` is `*limit.Limit` or 0. -/
+def batchStep (q : Int → Option Int → Option Nat → List Nat) (userOff : Option Int) (totalSize : Int)
+    (st : BatchSt) : StepOut :=
+  -- result := queryDB.Limit(batchSize).Find(dest)
+  let off := if st.first then userOff else none
+  let res := q st.batchSize off st.cursor
+  let query : BatchQuery := { limit := st.batchSize, offset := off, cursor := st.cursor }
+  let n : Int := res.length
+  -- rowsAffected += result.RowsAffected; batch++
+  let rowsAffected := st.rowsAffected + n
+  let batch := st.batch + 1
+  -- if tx.Error != nil || int(result.RowsAffected) < batchSize { break }
+  if n < st.batchSize then { res, query, rowsAffected, next := none }
+  else
+    -- if totalSize > 0 { if totalSize <= rowsAffected { break }; if totalSize/batchSize == batch { batchSize = totalSize % batchSize } }
+    if totalSize > 0 ∧ totalSize ≤ rowsAffected then { res, query, rowsAffected, next := none }
+    else
+      let batchSize :=
+        if totalSize > 0 ∧ totalSize / st.batchSize = batch then totalSize % st.batchSize
+        else st.batchSize
+      -- primaryValue, zero := ...ValueOf(last element); if zero { ErrPrimaryKeyRequired; break }
+      match res.getLast? with
+      | none => { res, query, rowsAffected, next := none, pkRequired := true }
+      | some last =>
+        if last = 0 then { res, query, rowsAffected, next := none, pkRequired := true }
+        else
+          -- queryDB = tx.Clauses(clause.Gt{pk, primaryValue})
+          { res, query, rowsAffected,
+            next := some { batchSize := batchSize, batch := batch, rowsAffected := rowsAffected,
+                           cursor := some last, first := false } }
+
+/-- the `for { ... }` loop: `acc` / `qs` collect (reversed) the batches handed to `fc`
+    (`if result.Error == nil && result.RowsAffected != 0 { fc(...) }`) and the queries issued. -/
+def batchLoopQ (q : Int → Option Int → Option Nat → List Nat) (userOff : Option Int) (totalSize : Int) :
+    Nat → BatchSt → List (List Nat) → List BatchQuery → BatchOut
+  | 0, st, acc, qs =>
+    { batches := acc.reverse, queries := qs.reverse, rowsAffected := st.rowsAffected, outOfFuel := true }
+  | fuel+1, st, acc, qs =>
+    let s := batchStep q userOff totalSize st
+    let acc := if s.res.length ≠ 0 then s.res :: acc else acc
+    let qs := s.query :: qs
+    match s.next with
+    | none => { batches := acc.reverse, queries := qs.reverse, rowsAffected := s.rowsAffected,
+                pkRequired := s.pkRequired }
+    | some st' => batchLoopQ q userOff totalSize fuel st' acc qs
+
+/-- `*limit.Limit` or 0 (the preamble's `totalSize`) -/
+def totalSizeOf (lim : Option Limit) : Int :=
+  match lim with
+  | some l => (match l.limit with | some n => n | none => 0)
+  | none => 0
+
+/-- the preamble's clamp `if totalSize > 0 && batchSize > totalSize { batchSize = totalSize }`
+    (only inside `if c, ok := Clauses["LIMIT"]`) -/
+def clampBatch (lim : Option Limit) (batchSize : Int) : Int :=
+  if lim.isSome ∧ totalSizeOf lim > 0 ∧ batchSize > totalSizeOf lim then totalSizeOf lim else batchSize
+
+/-- `FindInBatches(dest, batchSize, fc)` on a chain whose LIMIT clause state is `lim`, generic in the query. -/
+def findInBatchesQ (q : Int → Option Int → Option Nat → List Nat) (lim : Option Limit) (batchSize : Int)
+    (fuel : Nat) : BatchOut :=
+  batchLoopQ q (effOffsetOf lim) (totalSizeOf lim) fuel { batchSize := clampBatch lim batchSize } [] []
+
+/-- chain without WHERE / user ordering over the key list `rows` -/
 def findInBatches (rows : List Nat) (lim : Option Limit) (batchSize : Int) (fuel : Nat) : BatchOut :=
-  let totalSize : Int := match lim with
-    | some l => (match l.limit with | some n => n | none => 0)
-    | none => 0
-  let batchSize := if lim.isSome ∧ totalSize > 0 ∧ batchSize > totalSize then totalSize else batchSize
-  batchLoop rows (effOffsetOf lim) totalSize fuel { batchSize := batchSize } []
+  findInBatchesQ (fun l o g => findQ rows (some l) o g) lim batchSize fuel
+
+/-- chain with WHERE units `us` and user ordering `ord` over table `tbl`
+    (`db.Order(pk)` of FindInBatches is appended AFTER the user's columns) -/
+def findInBatchesW (tbl : List Nat) (us : List WUnit) (ord : List OrdCol) (lim : Option Limit)
+    (batchSize : Int) (fuel : Nat) : BatchOut :=
+  findInBatchesQ (fun l o g => queryW tbl us (ord ++ [pkAsc]) (some l) o g) lim batchSize fuel
 
 /-- what a plain `Find` on the same chain returns (ORDER BY pk) -/
 def findAll (rows : List Nat) (lim : Option Limit) : List Nat :=
   findQ rows (effLimitOf lim) (effOffsetOf lim) none
+
+/-- rows matching the chain's WHERE, in key order -/
+def matchingW (tbl : List Nat) (us : List WUnit) : List Nat := tbl.filter (whereSat us none)
+
+/-- what `Find` returns for the chain with WHERE `us`, ordering `ord ++ [pk]`, LIMIT state `lim` -/
+def findAllW (tbl : List Nat) (us : List WUnit) (ord : List OrdCol) (lim : Option Limit) : List Nat :=
+  queryW tbl us (ord ++ [pkAsc]) (effLimitOf lim) (effOffsetOf lim) none
 
 end Gorm
